@@ -95,6 +95,7 @@ def make_cases(seed, tier, ndefs=None, ntypes=None, nvals=None):
     types = []
     seen = set()
     depth = 3 if tier == "quick" else 5
+    size_limit = 2500 if tier == "quick" else 9000
     # every definition instantiated at least once, then random types
     for name in U.order:
         d = U.defs[name]
@@ -111,6 +112,7 @@ def make_cases(seed, tier, ndefs=None, ntypes=None, nvals=None):
         types.append(t)
     # near-miss mutants (C04): mutated definitions live in their own modules under the same name
     pairs = []          # (index of T, index of U, kind)
+    pair_only = set()   # types that exist only as near-miss partners: they get the observations C04 needs
     counter = [0]
     base_defs = list(U.order)
     chosen = base_defs if tier != "quick" else rng.sample(base_defs, min(14, len(base_defs)))
@@ -125,7 +127,16 @@ def make_cases(seed, tier, ndefs=None, ntypes=None, nvals=None):
             for t in insts:
                 tm = ("adt", m.key, t[2])
                 types.append(tm)
+                pair_only.add(repr(tm))
                 pairs.append((repr(t), repr(tm), m.mutation))
+                # the same near-miss one level down: the hashes of a container must depend on its item type
+                if valid_elem(U, t) and valid_elem(U, tm) and rng.random() < (0.6 if tier == "quick" else 1.0):
+                    w = rng.choice(["vec", "vec", "bslice", "opt", "arr"])
+                    wrap = (lambda x: ("arr", 2, x)) if w == "arr" else (lambda x: (w, x))
+                    types.append(wrap(t))
+                    types.append(wrap(tm))
+                    pair_only.update([repr(wrap(t)), repr(wrap(tm))])
+                    pairs.append((repr(wrap(t)), repr(wrap(tm)), m.mutation + "/in-" + w))
     for (ta, tb, kind) in kpairs:
         types.append(ta)
         types.append(tb)
@@ -136,6 +147,7 @@ def make_cases(seed, tier, ndefs=None, ntypes=None, nvals=None):
         for kind, tn in builtin_near_misses(U, t)[:2]:
             if rng.random() < (0.5 if tier == "quick" else 1.0):
                 types.append(tn)
+                pair_only.add(repr(tn))
                 pairs.append((repr(t), repr(tn), kind))
     # regression corpus: the inputs of every defect found so far (fixed or known), always first
     corpus = corpus_cases()
@@ -150,6 +162,12 @@ def make_cases(seed, tier, ndefs=None, ntypes=None, nvals=None):
         vals, vseen = [], set()
         for _ in range(nvals * 3):
             v = rand_value(U, t, rng)
+            # keep streams of a size the extracted model handles in seconds (it is quadratic in the length)
+            for _retry in range(4):
+                if approx_len(U, t, v) <= size_limit:
+                    break
+                v = rand_value(U, t, rng)
+            v = shrink_top(U, t, v, size_limit)
             kv = repr(v)
             if kv not in vseen:
                 vseen.add(kv)
@@ -158,6 +176,9 @@ def make_cases(seed, tier, ndefs=None, ntypes=None, nvals=None):
                 break
         for j, v in enumerate(vals):
             cases.append(Case("c%dv%d" % (i, j), "t%d" % i, t, v))
+    base_types = set(repr(t) for t in types[:len(corpus) + ntypes])
+    for c in cases:
+        c.pair_only = repr(c.t) in pair_only and repr(c.t) not in base_types
     # cross-read targets: bytes of a case of type T are read as every paired type U (both directions)
     tid_of = {}
     for c in cases:
@@ -211,6 +232,16 @@ def make_cases(seed, tier, ndefs=None, ntypes=None, nvals=None):
             break
     cases += twins + scaled
     return U, types, cases
+
+
+def shrink_top(U, t, v, limit):
+    """a top-level sequence that is too long for the model's budget keeps its first items"""
+    if t[0] in ("vec", "bslice", "sref") and approx_len(U, t, v) > limit:
+        items = list(v[1])
+        while len(items) > 1 and approx_len(U, t, ("s", items)) > limit:
+            items = items[:max(1, len(items) // 2)]
+        return ("s", items)
+    return v
 
 
 def vecty(U, t):
@@ -755,6 +786,8 @@ def run_campaign(tier):
         ops.append("tags:" + ",".join(str(n) for n in c.tagc[x.cid]))
         if getattr(x, "liar", False):
             return ["ser", "schema"]
+        if getattr(x, "pair_only", False):
+            return ["hdr", "ser", "feed", "cross", "full", "eps:0", "schema:noagain" if si else "schema", "dty"]
         if getattr(x, "scaled_of", None):
             # a scaled twin exists only for the allocation comparison (and the usual round trips)
             return ["hdr", "ser", "full", "eps:0", "alloc:0"]
@@ -786,6 +819,8 @@ def run_campaign(tier):
             cr.append("load")
         if getattr(x, "liar", False):
             return ["tinfo", "ser", "schema"]
+        if getattr(x, "pair_only", False):
+            return cr + ["tinfo", "ser", "feed", "full", "eps:" + b, "schema"] + (["dty"] if (x.cid, "dty") in c.iobs else [])
         if getattr(x, "scaled_of", None):
             return ["tinfo", "ser", "full", "eps:" + b, "alloc:" + b]
         if (x.cid, "alloc:0") in c.iobs:
@@ -843,7 +878,7 @@ def agree(c, x, op):
         # the implementation adds same=..; compare rows and render outcomes
         return m == re.sub(r" same=[yn]$", "", i)
     if op == "place":
-        return m.strip() == re.sub(r" misaligned=\d+$", "", i).strip()
+        return m.strip() == re.sub(r" misaligned=\d+( diffrefs=\d+)?$", "", i).strip()
     if op == "feed":
         # the implementation adds the hash words; compare the two feeds
         return m.strip() == " ".join(p for p in i.split(" ") if p.startswith(("t=", "a=")))
